@@ -7,7 +7,7 @@
 // (spec side of the cast_value! conversions: see shims/milu.rs; the impl bodies are extracted and checked here)
 
 spec fn rv(args: Seq<Value>, i: int, ctx: ScriptContextRef) -> Result<Value, Error> {
-    if 0 <= i < args.len() { real_value_spec(args[i], ctx) } else { Err(Error {}) }
+    if 0 <= i < args.len() { real_value_spec(args[i], ctx) } else { Err(Error { type_mismatch: false }) }
 }
 spec fn is_array_of_string(t: Type) -> bool { t is Array && *(t->Array_0) == Type::String }
 
@@ -20,39 +20,45 @@ spec fn is_array_of_string(t: Type) -> bool { t is Array && *(t->Array_0) == Typ
             ret is Ok ==> (ret->Ok_0 == Type::String && args@.len() >= 1),
 //@ end
 //@ loop ToString::signature 0
-                    invariant targs@.len() == vf_it.index@,
+                    invariant targs_ok(targs@, args@, vf_it.index@ as int, ctx),
 //@ end
 //@ contract ToString::call
         ensures
             ret is Ok ==> has_type(ret->Ok_0, Type::String),
             ret is Ok <==> rv(args@, 0, ctx) is Ok,     // to_string never fails on an evaluated argument
+            no_type_err(rv(args@, 0, ctx)) ==> no_type_err(ret),
 //@ end
 
 //@ contract ToInteger::signature
         ensures
             ret is Ok ==> (ret->Ok_0 == Type::Integer && args@.len() >= 1),
+            ret is Ok ==> sig_arg(args@, 0, ctx, Type::String),
 //@ end
 //@ loop ToInteger::signature 0
-                    invariant targs@.len() == vf_it.index@,
+                    invariant targs_ok(targs@, args@, vf_it.index@ as int, ctx),
 //@ end
 //@ contract ToInteger::call
         ensures
             ret is Ok ==> has_type(ret->Ok_0, Type::Integer),
             rv(args@, 0, ctx) is Err ==> ret is Err,
+            // a non-numeric string is the only error of its own (dynamic); no failed cast
+            (arg_is(args@, 0, ctx, Type::String) && no_type_err(rv(args@, 0, ctx))) ==> no_type_err(ret),
 //@ end
 
 //@ contract Split::signature
         ensures
             ret is Ok ==> (is_array_of_string(ret->Ok_0) && args@.len() >= 2),
+            ret is Ok ==> (sig_arg(args@, 0, ctx, Type::String) && sig_arg(args@, 1, ctx, Type::String)),
 //@ end
 //@ loop Split::signature 0
-                    invariant targs@.len() == vf_it.index@,
+                    invariant targs_ok(targs@, args@, vf_it.index@ as int, ctx),
 //@ end
 //@ contract Split::call
         ensures
             ret is Ok ==> (ret->Ok_0 is Array && forall|i: int| 0 <= i < ret->Ok_0->Array_0@.len() ==> (#[trigger] ret->Ok_0->Array_0@[i]) is String),
             (rv(args@, 0, ctx) is Err || rv(args@, 1, ctx) is Err) ==> ret is Err,
             (rv(args@, 0, ctx) matches Ok(Value::String(s)) && rv(args@, 1, ctx) matches Ok(Value::String(d))) ==> ret is Ok,
+            (arg_is(args@, 0, ctx, Type::String) && arg_is(args@, 1, ctx, Type::String) && no_type_err(rv(args@, 0, ctx)) && no_type_err(rv(args@, 1, ctx))) ==> no_type_err(ret),
 //@ end
 
 //@ contract StringConcat::signature
@@ -60,7 +66,7 @@ spec fn is_array_of_string(t: Type) -> bool { t is Array && *(t->Array_0) == Typ
             ret is Ok ==> (ret->Ok_0 == Type::String && args@.len() >= 1),
 //@ end
 //@ loop StringConcat::signature 0
-                    invariant targs@.len() == vf_it.index@,
+                    invariant targs_ok(targs@, args@, vf_it.index@ as int, ctx),
 //@ end
 //@ contract StringConcat::call
         ensures
@@ -71,25 +77,31 @@ spec fn is_array_of_string(t: Type) -> bool { t is Array && *(t->Array_0) == Typ
 //@ contract Like::signature
         ensures
             ret is Ok ==> (ret->Ok_0 == Type::Boolean && args@.len() >= 2),
+            ret is Ok ==> (sig_arg(args@, 0, ctx, Type::String) && sig_arg(args@, 1, ctx, Type::String)),
 //@ end
 //@ loop Like::signature 0
-                    invariant targs@.len() == vf_it.index@,
+                    invariant targs_ok(targs@, args@, vf_it.index@ as int, ctx),
 //@ end
 //@ contract Like::call
         ensures
             ret is Ok ==> has_type(ret->Ok_0, Type::Boolean),
             (rv(args@, 0, ctx) is Err || rv(args@, 1, ctx) is Err) ==> ret is Err,
+            // an invalid regular expression is the only error of its own (dynamic); no failed cast
+            (arg_is(args@, 0, ctx, Type::String) && arg_is(args@, 1, ctx, Type::String) && no_type_err(rv(args@, 0, ctx)) && no_type_err(rv(args@, 1, ctx))) ==> no_type_err(ret),
 //@ end
 
 //@ contract NotLike::signature
         ensures
             ret is Ok ==> (ret->Ok_0 == Type::Boolean && args@.len() >= 2),
+            ret is Ok ==> (sig_arg(args@, 0, ctx, Type::String) && sig_arg(args@, 1, ctx, Type::String)),
 //@ end
 //@ loop NotLike::signature 0
-                    invariant targs@.len() == vf_it.index@,
+                    invariant targs_ok(targs@, args@, vf_it.index@ as int, ctx),
 //@ end
 //@ contract NotLike::call
         ensures
             ret is Ok ==> has_type(ret->Ok_0, Type::Boolean),
             (rv(args@, 0, ctx) is Err || rv(args@, 1, ctx) is Err) ==> ret is Err,
+            // an invalid regular expression is the only error of its own (dynamic); no failed cast
+            (arg_is(args@, 0, ctx, Type::String) && arg_is(args@, 1, ctx, Type::String) && no_type_err(rv(args@, 0, ctx)) && no_type_err(rv(args@, 1, ctx))) ==> no_type_err(ret),
 //@ end
